@@ -128,6 +128,15 @@ def run_dsop(w, s):
         real = lambda: ds.interp_axis(vals, axis=axis)
         for k in keys:
             per_var[k] = (lambda a, k=k: a.interp_axis(vals, axis=dim) if has(k) else a)
+    elif what == "reindex_like":
+        from dimarray import Axis, Axes
+        tg = {d: labs for d, labs in s["targets"].items() if d in m.dims and d in m.used()}
+        if not tg:
+            raise Skip("stale")
+        mk = lambda: Axes([Axis(V.label_array(labs), d) for d, labs in tg.items()])
+        real = lambda: ds.reindex_like(mk())
+        for k in keys:
+            per_var[k] = (lambda a: a.reindex_like(mk()))
     elif what == "scalar_op":
         f = getattr(operator, s["fn"])
         val = s["value"]
